@@ -7,6 +7,9 @@ from .front import mangle
 from .interp_base import PyRaise, ReturnEx, BreakEx, ContinueEx
 
 
+from .contract import ANY as ANY_SORT
+
+
 class Seq:
     """An iterable unfolded into an indexable sequence for the loop rules."""
 
@@ -57,6 +60,10 @@ class LoopCtx:
     def at_iteration_start(self):
         from .contract import Heap
         return Heap(None, self.iter_pre)
+
+    def allocated(self, v):
+        """v is an object that already exists (cannot alias anything allocated from now on)."""
+        return z3.And(Val.is_VRef(v), Val.r(v) > 0, Val.r(v) < self.I.st.next_id)
 
     def iter_log(self):
         return self.I.st.log[self.iter_log_start:]
@@ -446,6 +453,9 @@ class StmtMixin:
                         dicts = True
         if extra_modifies == "none":
             return
+        if isinstance(extra_modifies, (list, tuple)):
+            self.apply_havoc(extra_modifies)      # the loop contract states the frame explicitly
+            return
         if calls and extra_modifies is None:
             # calls may modify anything their contracts allow: conservative
             self.havoc_all_heap()
@@ -536,7 +546,12 @@ class StmtMixin:
         view = self.st.ghost.get("views", {}).get(self.concrete_ref(it))
         if view is not None:
             return view
-        cid = self.class_of(it, "iter-class")
+        cands = self.class_candidates(it)
+        seqs = {self.table.id(n) for n in ("list", "tuple", "set", "frozenset", "deque")}
+        if cands is not None and len(cands) > 1 and set(cands) <= seqs:
+            cid = cands[0]          # all builtin sequences iterate alike: no case split
+        else:
+            cid = self.class_of(it, "iter-class")
         if self.is_host_class(cid):
             self.host_op("iter", it, node)
             raise Unsupported("iteration over a host iterable")
@@ -571,9 +586,17 @@ class StmtMixin:
         self.ctx.assume(n >= 0)
         interp = self
 
+        hostdata = any(z3.simplify(Val.r(h)).eq(z3.simplify(r)) for h in
+                       self.st.ghost.get("host_owned", []) + self.st.ghost.get("host_data_dicts", []))
+
         def element(i):
             k = z3.Select(keys, i)
             interp.ctx.assume(z3.Implies(z3.And(i >= 0, i < n), z3.Select(has, k)))
+            # keys are primitives or host objects (agent objects are never used as dictionary keys)
+            interp.ctx.assume(z3.Implies(Val.is_VRef(k), z3.And(Val.r(k) > 0, Val.r(k) < interp.st.next_id,
+                              interp.host_or_builtin_class(z3.Select(interp.st.typeof, Val.r(k))))))
+            if hostdata:
+                interp.assume_shape(z3.Select(val, k), ANY_SORT)
             if what == "keys":
                 return k
             if what == "values":
